@@ -121,6 +121,10 @@ def stn_mirror(check, proj):
         ok = A.equal(v, D.stn.rel("xf", 1) - D.stn.rel("xf", 0))
         check.record("STN-MIRROR", f.qualname, ok, "the time step uses the cell widths xf[c+1]-xf[c], invariant under the reflection" if ok else "cell-size argument is %s" % A.show(v, 120), f.loc(), key="dt-dx")
         check.record("DT-CELLSIZE", f.qualname, ok, "1D cell size decodes to xf[c+1]-xf[c] for c in [0, n)" if ok else "cell-size argument is %s, not xf[c+1]-xf[c]" % A.show(v, 120), f.loc(), key="dx1d")
+    elif isinstance(dx, SArr) and len(dx.segs) > 1:
+        # several relations: the cell size of SOME cells is computed differently (a neighbour brought in by np.roll at one end...)
+        texts = ["cells [%r, %r): %s" % (l_, h_, A.show(v_, 60)) for l_, h_, v_ in dx.segs[:3]]
+        check.violation("STN-MIRROR", f.qualname, "the cell size handed to timestep() is not one relation over the cells but %d (%s): it is not the cell's own width xf[c+1]-xf[c] everywhere -- a one-sided neighbour (np.roll brings in the LEFT neighbour only, and wraps at a non-periodic end) is not invariant under the reflection" % (len(dx.segs), " ; ".join(texts)), f.loc(), key="dt-dx-segs")
     else:
         check.undecided("STN-MIRROR", f.qualname, "cell-size argument not decoded", f.loc())
 
